@@ -213,9 +213,12 @@ func (m *maxInflightWrapper) SetLimit(acquireResult *AcquireResult) bool {
 		atomic.StoreInt32(&m.acquiredMaxInflight, limit)
 		m.FlowControl.Resize(uint32(limit), 0)
 	} else {
+		// the answered limit is not trusted, a negative limit must not be
+		// converted to a huge unsigned limit
+		limit := clampInt32(result.Limit, 0, m.max)
 		atomic.StoreInt32(&m.overLimited, 1)
-		atomic.StoreInt32(&m.acquiredMaxInflight, result.Limit)
-		m.FlowControl.Resize(uint32(result.Limit), 0)
+		atomic.StoreInt32(&m.acquiredMaxInflight, limit)
+		m.FlowControl.Resize(uint32(limit), 0)
 	}
 
 	atomic.StoreInt64(&m.lastAcquireTime, acquireResult.requestTime)
